@@ -495,8 +495,8 @@ pub fn finish(
                 continue;
             }
             // re-execute twice from the recorded case
-            let r1 = replayer(&v.case);
-            let r2 = replayer(&v.case);
+            let r1 = guarded(|| replayer(&v.case)).unwrap_or(None);
+            let r2 = guarded(|| replayer(&v.case)).unwrap_or(None);
             let digest = |r: &Option<Vec<Violation>>| {
                 r.as_ref().map(|vs| {
                     let mut k: Vec<String> = vs.iter().filter(|x| x.prop == rep.prop).map(|x| format!("{}|{}", x.kind, x.detail)).collect();
